@@ -261,7 +261,12 @@ def headerEstimate (g : Geom) (e : Exp) : Nat :=
   (match e.bext with | some b => if bextSupport g.cont then 610 + (normHistory .write (historyLine g) (b.drop 608)).length else 0 | none => 0) +
   (match e.cart with | some b => if cartSupport g.cont then 2056 + (normTag 0 (b.drop 2052)).length else 0 | none => 0) +
   (match e.cues with
-   | some cs => if cueSupport g.cont then 12 + (if g.cont == .aiff then (cs.map fun q => 8 + q.name.length).sum else 24 * cs.length) else 0
+   | some cs =>
+     -- WAV: the names travel in a LIST/adtl chunk, one labl entry (id, size, cue id, text, NUL, pad) per named cue point
+     if cueSupport g.cont then
+       12 + (if g.cont == .aiff then (cs.map fun q => 8 + q.name.length).sum
+             else 24 * cs.length + ((cs.filter fun q => !q.name.isEmpty).map fun q => 14 + q.name.length).sum)
+     else 0
    | none => 0) +
   (match e.inst with | some b => if instSupport g.cont then 44 + 24 * instLoopCount b else 0 | none => 0)
 
